@@ -413,6 +413,8 @@ func init() {
 		}
 		return []TextEdit{p.editReplace(loop, "for uuid, v := range s {\nif o[uuid] != v {\nreturn false\n}\n}")}, nil
 	}})
+	ctl("integer conversion trusts the wire value to be non-nil", "P-NIL-REFLECT", "OvsToNativeAtomic|method on reflect.TypeOf", "ovsdb", "", "OvsToNativeAtomic", kExpr, "ovsElem == nil || !reflect.TypeOf(ovsElem).ConvertibleTo(naType)", 0, to("!reflect.TypeOf(ovsElem).ConvertibleTo(naType)"))
+	ctl("insert no longer refuses a uuid in use", "T-UUIDFREE", "Transaction).Insert|uuid checked to be free", "database/transaction", "Transaction", "Insert", kExpr, "inUse", 3, to("false"))
 	ctl("lock taken before waiting for the handlers", "L-WAIT", "handleDisconnectNotification|WaitGroup.Wait", "client", "ovsdbClient", "handleDisconnectNotification", kStmt, "o.handlerShutdown.Wait()", 0, to("o.shutdownMutex.Lock()\no.handlerShutdown.Wait()\no.shutdownMutex.Unlock()"))
 	ctl("transact accepts an empty operation list", "G-ARGS", "at least one operation", "server", "OvsdbServer", "Transact", kExpr, "len(args) < 2", 0, to("len(args) < 1"))
 	ctl("delete-by-keys special case for every column", "P-NIL-TYPEOBJ", "addMutateOperation|deref", "updates", "ModelUpdates", "addMutateOperation", kExpr, `mutation.Mutator == "delete" && column.Type == ovsdb.TypeMap && reflect.TypeOf(mutation.Value) != reflect.TypeOf(ovsdb.OvsMap{})`, 0, to(`mutation.Mutator == "delete" && reflect.TypeOf(mutation.Value) != reflect.TypeOf(ovsdb.OvsMap{})`))
